@@ -48,6 +48,12 @@ func manifestHandler(raw json.RawMessage) (any, error) {
 		os.MkdirAll(filepath.Join(root, d, "m", "n"), 0755)
 	}
 	os.MkdirAll(filepath.Join(base, "outer", "bundle-evil"), 0755)
+	// links inside a package directory: lookups are about names, not about what the names resolve to
+	os.MkdirAll(filepath.Join(root, "d1", "v2"), 0755)
+	os.WriteFile(filepath.Join(root, "d1", "v2", "main.tf"), []byte("x"), 0644)
+	os.Symlink("v2", filepath.Join(root, "d1", "latest"))
+	os.Symlink(filepath.Join(base, "outer", "bundle-evil"), filepath.Join(root, "d1", "vendored"))
+	os.Symlink("../d2/m", filepath.Join(root, "d1", "other"))
 	var out ManifestOut
 	var b *sourcebundle.Bundle
 	func() {
@@ -135,7 +141,7 @@ func manifestHandler(raw json.RawMessage) (any, error) {
 	for _, d := range arg.Dirs {
 		paths = append(paths, filepath.Join(root, d), filepath.Join(root, d, "m"), filepath.Join(root, d, "m", "n"), root+"/"+d+"/./m", root+"/"+d+"/x/../m", root+"/"+d+"/m/n/../..", root+"/"+d+"/file.tf")
 		// names a file system allows and an address grammar might not
-		for _, odd := range []string{"what?.md", "why?/main.tf", "a b/ü", "a#b", "a%2Fb", "a%zz", "*", "a@b", "a:b", "..data", "a..", "m/...", "a\\b", "?", "#"} {
+		for _, odd := range []string{"latest/main.tf", "latest", "vendored/main.tf", "other/n", "what?.md", "why?/main.tf", "a b/ü", "a#b", "a%2Fb", "a%zz", "*", "a@b", "a:b", "..data", "a..", "m/...", "a\\b", "?", "#"} {
 			paths = append(paths, root+"/"+d+"/"+odd)
 		}
 	}
